@@ -409,7 +409,7 @@ class Interp:
                 if not isinstance(a, int) or not isinstance(b, int):
                     raise RefError("non-constant range bound")
                 if it[3] is None:
-                    st = 1 if b >= a else -1
+                    st = 1            # documented default step; descending needs `step -n`
                 else:
                     st = self.ev(it[3], env)
                 if st == 0:
